@@ -553,8 +553,23 @@ TreeCase(ti) ==
                    !.fsz = IF ti = 0 THEN NoFsz
                            ELSE [dflt |-> 48, tab |-> << <<0, TreeSizes[ti][1]>>, <<8, TreeSizes[ti][2]>>, <<11, TreeSizes[ti][3]>> >>]]
 
+\* callee-saved registers whose ONLY writers in the whole program are of one kind (wide load,
+\* memory load, mov, add): an engine that decides what to save from the instructions it sees must
+\* see every kind of writer.  main sets r6..r9, calls f, sums them; f overwrites them the same way.
+SavedSet(kind, r, v) ==
+  CASE kind = 1 -> LddwSlots(r, FromNat(v))
+    [] kind = 2 -> << StI(8, 10, -8, v), LdxI(8, r, 10, -8) >>
+    [] kind = 3 -> << Mov64I(r, v) >>
+    [] kind = 4 -> << Add64I(r, v) >>
+SavedProg(kind) ==
+  LET set(base) == SavedSet(kind, 6, base + 6) \o SavedSet(kind, 7, base + 7) \o SavedSet(kind, 8, base + 8) \o SavedSet(kind, 9, base + 9)
+      main == set(100) \o << CallxI(5), Add64R(0, 6), Add64R(0, 7), Add64R(0, 8), Add64R(0, 9), ExitI >>
+  IN Flat(main \o set(2000) \o << Mov64I(0, 1), ExitI >>)
+SavedCase(kind) ==
+  [BaseCase EXCEPT !.id = <<"saved", kind, 0, 0, 0, 0, 0>>, !.fam = "calls", !.vm = "nodata", !.prog = SavedProg(kind)]
+
 CallsCases(u) ==
-  { LocalVsHelper(k) : k \in {1, 2, 6} } \cup
+  { LocalVsHelper(k) : k \in {1, 2, 6} } \cup { SavedCase(k) : k \in 1..4 } \cup
   WithJitDev( { HelperNotAnEntry } \cup { TreeCase(ti) : ti \in 0..Len(TreeSizes) } \cup { ChainCase(t[1], t[2], t[3]) : t \in {x \in (0..9) \X {0, 1} \X (1..7) : Keep(x[1] + 3*x[2] + 5*x[3])} }
               \cup { RecCase(N, ci) : N \in 0..9, ci \in {1, 2, 3} } )
 
